@@ -233,6 +233,7 @@ class PlotData:
                 pop = result.model.get_pop(pop_label)
                 popsize[pop_label] = pop.popsize()
                 data_dict = dict()  # Temporary storage for raw outputs
+                function_dict = dict()  # Temporary storage for outputs computed from functions (kept apart: a function output may be named like a model quantity)
 
                 # First pass, extract the original output quantities, summing links and annualizing as required
                 for output_label in outputs_required:
@@ -313,9 +314,7 @@ class PlotData:
                     par.deps = deps
                     par.preallocate(tvecs[result_label], dt)
                     par.update()
-                    data_dict[output_label] = par.vals
-                    output_units[output_label] = par.units
-                    output_timescales[output_label] = None
+                    function_dict[output_label] = par.vals
 
                 # Third pass, aggregate them according to any aggregations present
                 for output in outputs:  # For each final output
@@ -325,7 +324,7 @@ class PlotData:
 
                         # If this was a function, aggregation over outputs doesn't apply so just put it straight in.
                         if sc.isstring(labels):
-                            aggregated_outputs[pop_label][output_name] = data_dict[output_name]
+                            aggregated_outputs[pop_label][output_name] = function_dict[output_name]
                             aggregated_units[output_name] = "unknown"  # Also, we don't know what the units of a function are
                             aggregated_timescales[output_name] = None  # Timescale is lost
                             continue
